@@ -47,7 +47,7 @@ func runC13(c *Check) {
 		}
 		found := 0
 		for _, r := range Returns(fn) {
-			for _, o := range Origins(r.Results[0]) {
+			for _, o := range RetOrigins(r, 0) {
 				if t := c.P.BoundMethodTarget(o); t != nil {
 					found++
 					if !seen[t] {
